@@ -148,7 +148,12 @@ func kinds(thorough bool) []kindSpec {
 	var ks []kindSpec
 	// strings: 1..9 runes in four alphabets
 	var strs []reflect.Value
-	for n := 1; n <= 9; n++ {
+	maxN := 9
+	wlo, whi := int64(-6), int64(9)
+	if thorough {
+		maxN, wlo, whi = 24, -40, 40
+	}
+	for n := 1; n <= maxN; n++ {
 		strs = append(strs, rv(strings.Repeat("a", n)), rv(strings.Repeat("中", n)), rv(strings.Repeat("😀", n)))
 		mix := []string{"a", "中", "😀", "é"}
 		s := ""
@@ -160,7 +165,7 @@ func kinds(thorough bool) []kindSpec {
 	ks = append(ks, kindSpec{"string", strs})
 	win := func() []int64 {
 		var w []int64
-		for i := int64(-6); i <= 9; i++ {
+		for i := wlo; i <= whi; i++ {
 			if i != 0 {
 				w = append(w, i)
 			}
@@ -195,6 +200,14 @@ func kinds(thorough bool) []kindSpec {
 		for _, i := range []int16{math.MaxInt16, math.MaxInt16 - 1, math.MinInt16, math.MinInt16 + 1, 127, 128, 255, 256, -128, -129} {
 			v = append(v, rv(i))
 		}
+		if thorough { // all 65535 non-zero values
+			v = nil
+			for i := math.MinInt16; i <= math.MaxInt16; i++ {
+				if i != 0 {
+					v = append(v, rv(int16(i)))
+				}
+			}
+		}
 		ks = append(ks, kindSpec{"int16", v})
 	}
 	{
@@ -218,7 +231,10 @@ func kinds(thorough bool) []kindSpec {
 		ks = append(ks, kindSpec{"int64", v})
 	}
 	// unsigned
-	uwin := []uint64{1, 2, 3, 4, 5, 6, 7, 8, 9}
+	var uwin []uint64
+	for i := uint64(1); i <= uint64(whi); i++ {
+		uwin = append(uwin, i)
+	}
 	{
 		var v []reflect.Value
 		for _, i := range uwin {
@@ -243,6 +259,12 @@ func kinds(thorough bool) []kindSpec {
 		}
 		for _, i := range []uint16{math.MaxUint16, math.MaxUint16 - 1, 127, 128, 255, 256, 32767, 32768} {
 			v = append(v, rv(i))
+		}
+		if thorough { // all 65535 non-zero values
+			v = nil
+			for i := 1; i <= math.MaxUint16; i++ {
+				v = append(v, rv(uint16(i)))
+			}
 		}
 		ks = append(ks, kindSpec{"uint16", v})
 	}
@@ -269,7 +291,7 @@ func kinds(thorough bool) []kindSpec {
 	// floats
 	{
 		var v32, v64 []reflect.Value
-		for k := -12; k <= 18; k++ {
+		for k := 2 * int(wlo); k <= 2*int(whi); k++ {
 			if k == 0 {
 				continue
 			}
@@ -277,7 +299,11 @@ func kinds(thorough bool) []kindSpec {
 			v64 = append(v64, rv(float64(k)/2))
 		}
 		eps := math.Ldexp(1, -20)
-		for b := -3; b <= 6; b++ {
+		blo, bhi := -3, 6
+		if thorough {
+			blo, bhi = -12, 20
+		}
+		for b := blo; b <= bhi; b++ {
 			for _, d := range []float64{-eps, eps} {
 				v64 = append(v64, rv(float64(b)+d))
 				v32 = append(v32, rv(float32(float64(b)+d))) // exactly representable: |b|<8 needs 3+20 bits
@@ -290,7 +316,7 @@ func kinds(thorough bool) []kindSpec {
 	// slices
 	{
 		var vi, vs []reflect.Value
-		for n := 1; n <= 9; n++ {
+		for n := 1; n <= maxN; n++ {
 			a := make([]int, n)
 			b := make([]string, n)
 			for i := range a {
@@ -308,10 +334,16 @@ func kinds(thorough bool) []kindSpec {
 func run(c *runner.Ctx) {
 	ks := kinds(c.Thorough())
 	var bounds1 []int
-	for b := -3; b <= 6; b++ {
+	blo, bhi := -3, 6
+	if c.Thorough() {
+		blo, bhi = -12, 20
+	}
+	for b := blo; b <= bhi; b++ {
 		bounds1 = append(bounds1, b)
 	}
-	bounds1 = append(bounds1, 127, 128, 255, 256, -128, -129, 9, 10)
+	bounds1 = append(bounds1, 127, 128, 255, 256, -128, -129, 9, 10, 24, 25, 40, 41)
+	// boundaries of the wider integer kinds (the bound is parsed as int: 64-bit here)
+	bounds1 = append(bounds1, 32767, 32768, -32768, -32769, 65535, 65536, math.MaxInt32, math.MaxInt32+1, math.MinInt32, math.MinInt32-1, 1<<53, 1<<53+1, math.MaxInt64, math.MaxInt64-1, math.MinInt64, math.MinInt64+1)
 	for _, r := range rules {
 		for _, k := range ks {
 			for _, car := range carrier.All {
@@ -326,7 +358,9 @@ func run(c *runner.Ctx) {
 							bl = append(bl, [2]int{lo, hi})
 						}
 					}
-					bl = append(bl, [2]int{1, 127}, [2]int{1, 128}, [2]int{-128, 127}, [2]int{0, 255}, [2]int{1, 255}, [2]int{-129, 256})
+					bl = append(bl, [2]int{1, 127}, [2]int{1, 128}, [2]int{-128, 127}, [2]int{0, 255}, [2]int{1, 255}, [2]int{-129, 256},
+						[2]int{-32768, 32767}, [2]int{-32769, 32768}, [2]int{0, 65535}, [2]int{1, 65536}, [2]int{math.MinInt32, math.MaxInt32}, [2]int{1 << 53, 1<<53 + 1},
+						[2]int{math.MinInt64, math.MaxInt64}, [2]int{math.MinInt64 + 1, math.MaxInt64 - 1}, [2]int{8, 24}, [2]int{24, 25})
 				} else {
 					for _, b := range bounds1 {
 						bl = append(bl, [2]int{b, b})
